@@ -962,13 +962,13 @@ Qed.
 Definition sel_pattern (d : nat) (p : pattern) : bool := ml_pattern (eokd d) p.
 Definition sel_resource (d : nat) (t : resource) : bool := ml_resource (eokd d) t.
 
-Theorem parse_render_sel_split d cs t : sel_resource d t = true ->
+Theorem parse_render_sel_split d cs t : sel_resource d t = true -> last_comment_ok t = true ->
   exists t', parse (render cs t) = Done (t', []) /\ Forall2 (rel_entry (srel (goodd d))) t' t.
 Proof.
   destruct (facts_all d) as (R & J & W & P). apply (parse_render_ml_split (eokd d) (etextd d) (goodd d)); assumption.
 Qed.
 
-Theorem parse_render_sel d cs t : sel_resource d t = true ->
+Theorem parse_render_sel d cs t : sel_resource d t = true -> last_comment_ok t = true ->
   exists t', parse (render cs t) = Done (t', []) /\ map join_entry t' = t.
 Proof.
   destruct (facts_all d) as (R & J & W & P). apply (parse_render_ml (eokd d) (etextd d) (goodd d)); assumption.
@@ -1091,11 +1091,12 @@ Proof.
     apply andb_prop in H as [Hid Hp]. unfold ml_attribute. rewrite Hid, (simple_pattern_ml _ Hp). reflexivity. }
   assert (Hpe : forall e, plain_entry e = true -> ml_plain_entry eok e = true).
   { intros e. destruct e as [id [p|] attrs [|]|id p attrs [|]|c|c|c|]; try discriminate; cbn [plain_entry ml_plain_entry];
-      intros H; try exact H.
+      intros H; try (apply simple_wide_comment; exact H).
     all: apply andb_prop in H as [H Hattrs]; apply andb_prop in H as [Hid Hp];
       rewrite Hid, (Ha attrs Hattrs), ?(simple_pattern_ml _ Hp), ?Hp; reflexivity. }
   unfold simple_resource, ml_resource. rewrite !forallb_forall. intros H e Hin. specialize (H e Hin).
-  unfold simple_entry in H. apply andb_prop in H as [H1 H2]. unfold ml_entry. rewrite (Hpe _ H1), H2. reflexivity.
+  unfold simple_entry in H. apply andb_prop in H as [H1 H2]. unfold ml_entry. rewrite (Hpe _ H1). cbn [andb].
+  destruct (entry_comment e); [apply simple_wide_comment, H2 | reflexivity].
 Qed.
 
 End SimpleIn.
